@@ -389,7 +389,8 @@ def stepLine (d : DSt) (ws : List String) : DSt × String :=
   match ws with
   | ["reset"] =>
     -- the capacity tables given on the command line are a parameter of the whole run
-    let d0 := { init0 with st := { init0.st with capTab := d.st.capTab } }
+    let d0 := { init0 with st := { init0.st with capTab := d.st.capTab, growTab := d.st.growTab,
+                                                   assignEmptyStatic := d.st.assignEmptyStatic, assignSameSkip := d.st.assignSameSkip } }
     (d0, obs d0)
   | ["end"] =>
     let s0 := (List.range nSlots).foldl (fun s v => giveTo s v 0) d.st
@@ -447,10 +448,18 @@ end Nstd.Rc
 /-- command line: up to four comma-separated capacity tables (allocation sites 0..3, index = requested
     minimum capacity), measured by `harness --probe` on the real String class -/
 def main (args : List String) : IO Unit :=
-  let tabs : List (List Nat) := args.map (fun a => (a.splitOn ",").filterMap (fun t => t.toNat?))
+  let tabs : List (List Nat) := (args.take 4).map (fun a => (a.splitOn ",").filterMap (fun t => t.toNat?))
+  -- 5th argument: growth table (rows = old capacity, `;`-separated), 6th: two digits assignEmptyStatic, assignSameSkip
+  let grow : List (List Nat) := ((args.getD 4 "").splitOn ";").map (fun r => (r.splitOn ",").filterMap (fun t => t.toNat?))
+  let flags : List Char := (args.getD 5 "00").toList
   let capTab : Nat → Nat → Nat := fun site len =>
     match (tabs.getD site [])[len]? with
     | some c => c
     | none => len ||| 3
-  let d0 : Nstd.Rc.DSt := { Nstd.Rc.init0 with st := { Nstd.Rc.init0.st with capTab := capTab } }
+  let growTab : Nat → Nat → Nat := fun old len =>
+    match (grow.getD old [])[len]? with
+    | some c => c
+    | none => capTab 3 len
+  let d0 : Nstd.Rc.DSt := { Nstd.Rc.init0 with st := { Nstd.Rc.init0.st with capTab := capTab, growTab := growTab,
+    assignEmptyStatic := flags.getD 0 '0' == '1', assignSameSkip := flags.getD 1 '0' == '1' } }
   Nstd.Common.ioLoop d0 Nstd.Rc.stepLine
